@@ -49,6 +49,17 @@ CHECKS = {
             "square-root constants. RISTRETTO_BASEPOINT_COMPRESSED is checked under C11.",
             "TLA+ definitions recomputed by TLC and compared with every dumped constant/table entry on three builds",
             "5/C20"),
+    "C10": ("model_checking",
+            "TLC checks on complete toy curves (every string, every point in several projective scalings, every scalar) that the "
+            "decompression / compression / equality / identity / small-order algorithms of Edwards.tla equal the affine definitions; the "
+            "same module at real scale judges executions recorded inside package curve: complete finite families (every y in [p-3,2^255), "
+            "per-byte compare classes against p, x=0 sign cases, torsion encodings, lengths 0..1000, special u-coordinates with both "
+            "settings of bit 255) and seeded random strings / mixed-order points in random projective scalings, on two (quick) or four "
+            "(thorough) backends; UnmarshalBinary error and receiver state included.",
+            "Trusts TLC/SANY, BigNat/F25519, Element.ToBytes for reading coordinates (C04). Square roots and inversions use untrusted "
+            "certificates that the spec verifies (falls back to its own algorithm). IsTorsionFree is sampled (16 quick / 200 thorough).",
+            "TLA+ Edwards module: exhaustive TLC on toy curves + TLC trace validation of in-package recorded executions at real scale",
+            "5/C10"),
 }
 
 NOT_YET = "check not built yet in this round (planned, see DESIGN.md section 11); not claimed until its machinery exists"
